@@ -89,3 +89,14 @@ func DefaultRtpUnpackerFactory(payloadType base.AvPacketPt, clockRate int, maxSi
 	}
 	return NewRtpUnpackContainer(maxSize, protocol)
 }
+
+// timestampToMs 将rtp时间戳转换为毫秒
+//
+// clockRate来自对端的sdp，小于1000(包括0)时无法按整数毫秒换算，此时直接使用原始时间戳，避免除0导致进程退出
+func timestampToMs(ts uint32, clockRate int) int64 {
+	d := uint32(clockRate / 1000)
+	if d == 0 {
+		d = 1
+	}
+	return int64(ts / d)
+}
